@@ -38,23 +38,43 @@ theorem literal_sites_fit_full_false : ¬ literal_sites_fit_full := by
   rw [hv] at this
   cases this
 
-/-- the other literal defect classes, each an accepted schema with an ill-formed site -/
-theorem literal_witnesses :
-    (Accepted wQuote ∧ (literalSites wQuote pkg).any (fun s => s.kind == "text.description" && s.verdict == .bad) = true) ∧
-    (Accepted wOctal ∧ (literalSites wOctal pkg).any (fun s => s.kind == "min" && s.verdict == .bad) = true) ∧
-    (Accepted wFloatInexact ∧ (literalSites wFloatInexact pkg).any (fun s => s.kind == "min" && s.verdict == .bad) = true) ∧
-    (Accepted wCharQuote ∧ (literalSites wCharQuote pkg).any (fun s => s.kind == "enumerator.char" && s.verdict == .bad) = true) :=
-  ⟨wQuote_fact, wOctal_fact, wFloatInexact_fact, wCharQuote_fact⟩
+/-- the rendering the theorems below are about is the one `Extracted.Templates` found in /repo on this run:
+    numbers are normalised (`strip_leading_zeros`, `.0`), text goes through `escape_literal` at every site,
+    `value_ref_to_enumerator` records its dependency.  A revert of one of those fixes flips the flag and these
+    obligations stop building -/
+theorem rendering_flags :
+    Templates.stripsLeadingZeros = true ∧ Templates.floatDotZero = true ∧ Templates.escapesLiterals = true ∧
+    Templates.valueRefRecordsDependency = true := by decide
+
+/-- the former literal defect classes (quote in a description, `minValue="08"`, `minValue="16777217"` of a
+    float type, the enumerator `'`, text with every special character): accepted, every site well-formed -/
+theorem fixed_literal_classes :
+    (Accepted wQuote ∧ (literalSites wQuote pkg).all (fun s => s.verdict == .ok) = true) ∧
+    (Accepted wOctal ∧ (literalSites wOctal pkg).all (fun s => s.verdict == .ok) = true) ∧
+    (Accepted wFloatInexact ∧ (literalSites wFloatInexact pkg).all (fun s => s.verdict == .ok) = true) ∧
+    (Accepted wCharQuote ∧ (literalSites wCharQuote pkg).all (fun s => s.verdict == .ok) = true) ∧
+    (Accepted wNasty ∧ (literalSites wNasty pkg).all (fun s => s.verdict == .ok) = true) :=
+  ⟨fixed_literal_witnesses.1, fixed_literal_witnesses.2.1, fixed_literal_witnesses.2.2.1,
+   fixed_literal_witnesses.2.2.2, wNasty_fact.1, wNasty_fact.2.1⟩
 
 /-- **literal_sites_fit (partial)**: a site whose value passed the check sbeppc applies to it (`validated`:
-    `value_fits_into_type`, the parser's integer widths; nothing for header-filler constants and text) and
-    whose input is outside the defect classes (`plain`: no superfluous leading zero; floating-point texts
-    that are not inexact / octal-looking / oversized integers; numbers that fit the header member they are
-    braced into; text without quote, backslash, line break and `??/`; character constants other than `'` and
-    `\`) is a well-formed C++ literal of the schema value at its site -/
+    `value_fits_into_type`, the parser's integer widths) and whose input is outside the remaining defect
+    classes (`plain`: a header-filler constant fits the header member it is braced into; an enumerator behind a
+    `valueRef` converts exactly to a floating-point constant type) is a well-formed C++ literal of the schema
+    value at its site -/
 theorem literal_sites_fit_partial (s : SchemaDef) (x : SchemaTexts) :
     ∀ site ∈ literalSites s x, site.validated = true → site.plain = true → site.verdict = .ok :=
   fun site _ hv hp => site_fits site hv hp
+
+/-- **literal_sites_fit_checked**: every site that carries an explicit schema value or schema text — min / max /
+    null, constants, enumerators, ids, versions, offsets, lengths, every description, semantic type, character
+    encoding, package, semantic version, string and character constant — is well-formed as soon as the value
+    passed sbeppc's own check; only the header-filler constants and `valueRef` enumerators, which sbeppc does
+    not check against the type they are braced into, are left out -/
+theorem literal_sites_fit_checked (s : SchemaDef) (x : SchemaTexts) :
+    ∀ site ∈ literalSites s x, site.validated = true → site.unchecked = false → site.verdict = .ok :=
+  fun site _ hv hu =>
+    site_fits_checked site rendering_flags.1 rendering_flags.2.1 rendering_flags.2.2.1 hv hu
 
 /-- non-vacuity: an accepted schema with explicit boundary values, a `"` enumerator, a padded string constant,
     nested groups: all of its sites are validated, plain, and (hence) well-formed -/
@@ -64,12 +84,39 @@ example : Accepted wGood ∧ (literalSites wGood pkg).length > 60 ∧
 theorem defaults_fit (a : Spec.Scalar.Attr) (p : Prim) :
     (Spec.Scalar.evalLit p (defaultText a p)).isSome = true := Literals.defaults_fit a p
 
-theorem integer_literal_value (p : Prim) (cs : List Char) (v : Int)
-    (h : parseIntFor p cs = some v) (hz : noLeadingZero cs = true) :
-    (toIntegerLiteral p cs).value? = some v ∧ bracedInt p v = true := Literals.integer_literal_value p cs v h hz
+/-- **integer_literal_value**: EVERY text `value_fits_into_type` accepts for an integer primitive (leading zeros
+    included) is rendered by `to_integer_literal` as a C++ integer constant expression of the same value that
+    list-initialises the primitive's C++ type without narrowing -/
+theorem integer_literal_value (p : Prim) (cs : List Char) (v : Int) (h : parseIntFor p cs = some v) :
+    (toIntegerLiteral p cs).value? = some v ∧ bracedInt p v = true :=
+  Literals.integer_literal_value p cs v h (Or.inl rendering_flags.1)
 
-example : parseIntFor .int64 "-9223372036854775808".toList = some (-9223372036854775808) ∧
-    noLeadingZero "-9223372036854775808".toList = true := by decide +kernel
+/-- **strip_leading_zeros_value**: for every digit string, `strip_leading_zeros` yields digits that C++ reads
+    as a decimal literal (never octal) of the same value -/
+theorem strip_leading_zeros_value (ds : List Char) (n : Nat) (h : decimal ds = some n) :
+    cxxDigits (stripZeros ds) = some n := stripZeros_spec h
+
+/-- **float_literal_fits**: EVERY text `value_fits_into_type` accepts for `float` / `double` is pasted as a C++
+    constant that list-initialises the type without narrowing and denotes the same value -/
+theorem float_literal_fits (p : Prim) (cs : List Char) (h : fpAccepted p cs = true) :
+    fitsFp p (renderFp cs) = .ok :=
+  Literals.float_literal_fits p cs h (Or.inl rendering_flags.2.1)
+
+/-- **escape_literal_denotes**: for EVERY string (and padding), the output of `escape_literal` between double
+    quotes is one well-formed string literal — also under trigraph replacement — that denotes exactly the
+    original characters; between single quotes, for every character -/
+theorem escape_literal_denotes (cs : List Char) (pad : Nat) (c : Char) :
+    stringLiteral cs pad = .ok ∧ charLiteral [c] = .ok :=
+  ⟨string_literal_ok cs pad (Or.inl rendering_flags.2.2.1), char_literal_ok c (Or.inl rendering_flags.2.2.1)⟩
+
+example : parseIntFor .int32 "-0008".toList = some (-8) ∧
+    (toIntegerLiteral .int32 "-0008".toList).text = "-8".toList ∧
+    parseIntFor .int64 "-9223372036854775808".toList = some (-9223372036854775808) := by decide +kernel
+
+example : fpAccepted .float "016777217".toList = true ∧
+    renderFp "016777217".toList = .pasted "016777217.0".toList := by decide +kernel
+
+example : pastedText "say \"hi\" ??/\n".toList = "say \\\"hi\\\" \\?\\?/\\n".toList := by decide +kernel
 
 /-! ## 2. Names and scopes -/
 
@@ -155,20 +202,25 @@ theorem scope_conflict_free_full_false : ¬ scope_conflict_free_full := by
   rw [hp] at this
   cases this
 
-/-- further witnesses: a set choice named `v`, a data member named `last` that is the last member, an enum
-    named `Visitor`, a type named `value_type`, a type named `tag_invoke` next to an enum -/
+/-- further witnesses: an enum named `Visitor`, a type named `value_type`, a type named `tag_invoke` next to an
+    enum -/
 theorem scope_witnesses :
-    (nameProblems (mkSchema (stdTypes ++ [.set "S" "uint8" none [{ name := "v", index := 0 }] {}]) [msg "M" 1])).any
-      (fun p => p.cls == "captured-by-template-scope" && p.name == "v") = true ∧
-    (nameProblems (mkSchema stdTypes [{ msg "M" 1 with datas := [{ name := "last", id := 2, type := "varDataEncoding" }] }])).any
-      (fun p => p.cls == "captured-by-template-scope" && p.name == "last") = true ∧
     (nameProblems (mkSchema (stdTypes ++ [.enum "Visitor" "uint8" none [{ name := "A", value := "1" }] {}]) [msg "M" 1])).any
       (fun p => p.cls == "type-hidden-by-template-parameter") = true ∧
     (nameProblems (mkSchema (stdTypes ++ [ty "value_type" "uint8"]) [msg "M" 1])).any
       (fun p => p.cls == "class-hides-inherited-member" && p.on == "all") = true ∧
     (nameProblems (mkSchema (stdTypes ++ [ty "tag_invoke" "uint8", .enum "E" "uint8" none [{ name := "A", value := "1" }] {}])
         [msg "M" 1])).any (fun p => p.cls == "type-hidden-by-function") = true := by
-  refine ⟨?_, ?_, ?_, ?_, ?_⟩ <;> decide +kernel
+  refine ⟨?_, ?_, ?_⟩ <;> decide +kernel
+
+/-- the former capture defects — a set choice `v`, a last data member `last`, fields `args` / `Args`, a type
+    named `std` — are no problems any more: the templates extracted on this run call members through `this->`
+    and say `::std::` -/
+theorem fixed_scope_classes :
+    nameProblems (mkSchema (stdTypes ++ [.set "S" "uint8" none [{ name := "v", index := 0 }] {}, ty "std" "uint8"])
+      [{ msg "M" 1 [fld "args" "uint8", fld "Args" "S" 2] with
+         datas := [{ name := "last", id := 3, type := "varDataEncoding" }] }]) = [] := by
+  decide +kernel
 
 /-- **scope_conflict_free (partial)**: when no declared name — schema names and the implementation names the
     names generator chose — is one of the identifiers the template tables list (`hazardNames`: template
@@ -260,18 +312,10 @@ example : messageSizeParams (msg "M" 1 [] [grp "a" 1 [] [grp "b" 2], grp "a_b" 3
 
 /-! ## 4. Includes -/
 
-/-- every public type a message file refers to is provided by one of the files it includes (transitively) —
-    FALSE on the current tree -/
+/-- **includes_closed**: every public type a message file refers to is provided by one of the files it
+    includes (transitively) -/
 def includes_closed_full : Prop :=
   ∀ s : SchemaDef, Accepted s → ∀ m ∈ s.messages, missingIncludes s m = []
-
-theorem includes_closed_full_false : ¬ includes_closed_full := by
-  intro h
-  have ha : Accepted wValueRef := wValueRef_fact.1
-  have hm : missingIncludes wValueRef wValueRef.messages.head! = ["E"] := wValueRef_fact.2
-  have := h wValueRef ha wValueRef.messages.head! (List.mem_cons_self)
-  rw [hm] at this
-  cases this
 
 /-- **includes_closed (partial)**: if every constant field has a non-primitive type, constant types carry a
     literal value (no `valueRef`) and enum-typed constants name an enumerator of their own enum, every public
@@ -299,6 +343,15 @@ theorem includes_closed_partial (s : SchemaDef) (m : MessageDef)
   simp only [this]
   rfl
 
+/-- `includes_closed_full` holds: `value_ref_to_enumerator` records the enum it spells out -/
+theorem includes_closed : includes_closed_full := by
+  intro s _ m _
+  exact (includes_closed_partial s m (levelPlain_of_flag _ _ _ rendering_flags.2.2.2)).2
+
+/-- the former defect: a constant field of primitive type whose value is an enumerator -/
+example : Accepted wValueRef ∧ missingIncludes wValueRef wValueRef.messages.head! = [] ∧
+    messageIncludes wValueRef wValueRef.messages.head! = ["messageHeader", "E"] := wValueRef_fact
+
 /-- non-vacuity: a message with a constant enum field, a constant-type field and a composite field -/
 example :
     let s := mkSchema (stdTypes ++ [.enum "E" "uint8" none [{ name := "A", value := "1" }] {},
@@ -306,7 +359,7 @@ example :
       [msg "M" 1 [{ fld "e" "E" with presence := .constant, valueRef := some "E.A" }, fld "k" "K" 2, fld "x" "uint8" 3]]
     Accepted s ∧ levelPlain s.types s.messages.head!.fields s.messages.head!.groups = true ∧
       messageNeeds s s.messages.head! = ["messageHeader", "E", "E", "K"] ∧
-      messageIncludes s s.messages.head! = ["messageHeader", "E", "K"] := by
+      messageIncludes s s.messages.head! = ["messageHeader", "E", "E", "K"] := by
   refine ⟨by decide +kernel, by decide +kernel, by decide +kernel, by decide +kernel⟩
 
 end Sbepp.Properties.C07
